@@ -1,4 +1,12 @@
 """C03 operator chains: left-associative, uniform precedence; parentheses override."""
+REG = dict(
+    engine='E1-enum',
+    technique='bounded-exhaustive enumeration of operator words, executed on the real parser/evaluator, differential oracle',
+    text="All 21^(n-1) operator words for n<=5 (quick) / n<=6 (thorough) are parsed by the real parser in-process and compared with the left-nested parenthesisation; every full parenthesisation for small n is compared with the shape its parentheses describe; Int chains are also evaluated. Exhaustive within the length bound, which is the level the property's quantifier (length 2..6 exhaustively) asks for.",
+    note="Chains longer than the bound and operand expressions other than variables/literals are not covered; tree equality is the parser's own structural PartialEq / Debug form.",
+    design_ref='DESIGN.md §6 C03',
+)
+
 import itertools
 from ..core import Machinery
 
